@@ -11,5 +11,6 @@ for p in $(seq -f 'C%02g' 1 20); do
 done
 # leave quick evidence in place (that is what gets committed)
 for p in $(seq -f 'C%02g' 1 20); do ./run.sh $p quick >/dev/null 2>&1; done
+python3 tools/manifest.py >/dev/null
 tools/selftest.py --jobs=8 | tail -1
 exit $bad
